@@ -86,6 +86,10 @@ pub enum FaultKind {
     /// the positive indication FOLLOWED by an error-severity rpc-error (inside
     /// load-configuration-results for a load); not performed
     OkThenError,
+    /// a well-formed <rpc-reply> without any content where the operation's positive reply has some
+    /// (<ok/>, <data>, load-configuration-results): no acknowledgement; not performed. For the
+    /// operations whose positive reply IS empty (open-/close-configuration) this is not a fault.
+    EmptyBody,
     /// the reply is not well-formed XML
     Malformed,
     /// the reply is cut in the middle (the delimiter still follows)
@@ -606,7 +610,8 @@ impl Junos {
             applied: false,
         };
         op.paths("", &mut rec.paths);
-        let refuse = matches!(fault, Some(FaultKind::RpcError | FaultKind::LoadErrorInResults | FaultKind::LoadErrorThenOk | FaultKind::OkThenError | FaultKind::CloseBeforeReply));
+        let refuse = matches!(fault, Some(FaultKind::RpcError | FaultKind::LoadErrorInResults | FaultKind::LoadErrorThenOk | FaultKind::OkThenError | FaultKind::CloseBeforeReply))
+            || (fault == Some(FaultKind::EmptyBody) && !matches!(op.local.as_str(), "open-configuration" | "close-configuration"));
         // ---- perform the operation on the model
         let mut warnings: Vec<String> = Vec::new();
         let mut body: Result<String, String> = match op.local.as_str() {
@@ -735,6 +740,12 @@ impl Junos {
                 FaultKind::LoadErrorThenOk => {
                     rec.reply = ReplyKind::Negative;
                     msgs.push(reply_doc(&id, &format!("<load-configuration-results>{}<ok/></load-configuration-results>", rpc_error("error", "operation-failed", "statement creation failed"))));
+                }
+                FaultKind::EmptyBody => {
+                    if !b.is_empty() {
+                        rec.reply = ReplyKind::Negative;
+                    }
+                    msgs.push(reply_doc(&id, ""));
                 }
                 FaultKind::OkThenError => {
                     rec.reply = ReplyKind::Negative;
